@@ -94,6 +94,9 @@ pub struct MemT {
     pub max: Option<u64>,
     pub shared: bool,
     pub memory64: bool,
+    /// custom-page-sizes proposal: pages of one byte (`(pagesize 1)`), limits are then byte counts
+    #[serde(default)]
+    pub page1: bool,
 }
 impl MemT {
     pub fn enc(self) -> wasm_encoder::MemoryType {
@@ -102,7 +105,7 @@ impl MemT {
             maximum: self.max,
             memory64: self.memory64,
             shared: self.shared,
-            page_size_log2: None,
+            page_size_log2: if self.page1 { Some(0) } else { None },
         }
     }
     pub fn parser(self) -> wasmparser::MemoryType {
@@ -111,7 +114,7 @@ impl MemT {
             shared: self.shared,
             initial: self.min,
             maximum: self.max,
-            page_size_log2: None,
+            page_size_log2: if self.page1 { Some(0) } else { None },
         }
     }
     pub fn from_parser(m: &wasmparser::MemoryType) -> MemT {
@@ -120,6 +123,7 @@ impl MemT {
             max: m.maximum,
             shared: m.shared,
             memory64: m.memory64,
+            page1: m.page_size_log2 == Some(0),
         }
     }
 }
@@ -742,6 +746,7 @@ pub fn features() -> wasmparser::WasmFeatures {
         | F::REFERENCE_TYPES
         | F::MULTI_VALUE
         | F::SHARED_EVERYTHING_THREADS
+        | F::CUSTOM_PAGE_SIZES
 }
 
 pub fn validate(bytes: &[u8]) -> Result<(), String> {
